@@ -59,6 +59,21 @@ func main() {
 	flavour, out := os.Args[1], os.Args[2]
 	die(os.MkdirAll(out, 0o755))
 	ov := map[string]string{}
+	// Development aid (never set by a registered command): VERIF_MUTANT_OVERLAY names a JSON
+	// file {"Replace": {"/repo/x.go": "/scratch/x.go"}} whose entries stand in for repo files,
+	// so that a deliberate property-breaking change can be tried without touching /repo.
+	mut := map[string]string{}
+	if mp := os.Getenv("VERIF_MUTANT_OVERLAY"); mp != "" {
+		var mo struct{ Replace map[string]string }
+		b, err := os.ReadFile(mp)
+		die(err)
+		die(json.Unmarshal(b, &mo))
+		for k, v := range mo.Replace {
+			mut[k] = v
+			ov[k] = v
+		}
+		fmt.Fprintf(os.Stderr, "mkoverlay: %d mutant replacement(s) active\n", len(mut))
+	}
 
 	// 1. added files: hooks/add/** (all flavours), hooks/add-sched/** (sched only)
 	addTree := func(root string) {
@@ -118,7 +133,11 @@ func main() {
 			if rel == "internal/rt/gcwb.go" || strings.HasPrefix(rel, "loader/vshim") {
 				continue
 			}
-			b, err := os.ReadFile(f)
+			rf := f
+			if m, ok := mut[f]; ok {
+				rf = m
+			}
+			b, err := os.ReadFile(rf)
 			die(err)
 			src := string(b)
 			ys, wantY := yields[rel]
